@@ -70,6 +70,11 @@ EXTRA_COVERAGE = {
     "constructs": list(P.CONSTRUCTS),
     "site_kinds": list(P.SITES),
     "max_depth": {"quick": 2, "thorough": 3},
+    "exhaustive_note": (
+        "the placement space (chains to the tier's depth x 4 site kinds x 2 legs) is enumerated completely; every "
+        "leg is either executed, rejected by JAX for a deterministic stand-in as well (jax_rejects_composition), or "
+        "subsumed by a proper sub-chain that already violates in that leg (counters *_subsumed_by_violating_subchain)"
+    ),
 }
 # floors hold both on the tree as it is (placements with AD / checkpoint / custom_jvp end as
 # violations or are subsumed by one) and on a tree where those raise the dedicated error
@@ -99,7 +104,7 @@ FLOORS = {
         "flag_checks": 8500,
     },
 }
-TIMEOUT_S = {"quick": 1500, "thorough": 5400}
+TIMEOUT_S = {"quick": 1800, "thorough": 7200}
 
 
 def plan(tier, seed):
@@ -112,7 +117,7 @@ def plan(tier, seed):
 # ---------------------------------------------------------------------------
 KNOWN_REJECTION = "Reverse-mode differentiation does not work for lax.while_loop"
 _W = {}
-_MEMO = {}  # (kind, chain, seed) -> evaluation record
+_MEMO = {}  # (kind, chain, seed, leg) -> leg record
 _CONTROL = {}  # (chain, seed) -> None (valid) | str (why JAX rejects it)
 
 
